@@ -222,10 +222,23 @@ def body_darksky(case):
 
     from nuspacesim.simulation.geometry.too import ToOEvent
 
-    conf = _config(case)
     N, T = case["n"], case["T"]
     t0 = Time(case["date"], format="isot", scale="utc")
     times = t0 + TimeDelta(np.arange(N) * (T / N), format="sec")
+    if case.get("rel"):
+        # generator helper: a limit is placed next to the value the quantity takes at a generated instant of the window
+        # (Moon altitude +- 1 deg, phase angle +- 1.5 deg, Sun altitude +- 1 deg), so that instants NEAR a limit - but
+        # outside the don't-care band - are frequent
+        which, frac, off = case["rel"]
+        tm = Time([t0 + TimeDelta(frac * T, format="sec")])
+        with quiet():
+            if which == "moon":
+                case = dict(case, moon_cut=float(body_altitude("moon", case, tm)[0]) + off)
+            elif which == "phase":
+                case = dict(case, phase_cut=min(max(float(moon_phase(tm)[0]) + 1.5 * off, 0.0), math.pi))
+            else:
+                case = dict(case, sun_cut=float(body_altitude("sun", case, tm)[0]) + off)
+    conf = _config(case)
     with quiet():
         with cut("ToOEvent(config)"):
             too = ToOEvent(conf)
@@ -246,6 +259,14 @@ def body_darksky(case):
             f"dark-sky condition at instant {i} is {bool(got[i])}; Sun altitude {math.degrees(sun[i]):.4f} deg (limit {math.degrees(sc):.4f}), Moon altitude {math.degrees(moon[i]):.4f} deg (limit {math.degrees(mc):.4f}), "
             f"phase angle {math.degrees(ph[i]):.4f} deg (minimum {math.degrees(pc):.4f}) -> expected {bool(expect[i])}"
         )
+    # the same instants expressed in another time scale (TAI, TT, TDB - what a caller converting catalogue times may hold)
+    sc_name = case.get("scale")
+    if sc_name:
+        with quiet():
+            with cut(f"sun_moon_cut(the same instants in the {sc_name.upper()} scale)"):
+                got_s = np.asarray(too.sun_moon_cut(getattr(times, sc_name)), dtype=bool)
+        bad_s = np.where((got_s != got) & ~dontcare)[0]
+        require(bad_s.size == 0, f"the dark-sky condition of {bad_s.size} instants changes when the same instants are given in the {sc_name.upper()} time scale (first: instant {int(bad_s[0]) if bad_s.size else -1})")
     # evaluated at each event time: array call == scalar calls
     idx = sorted(set([0, N - 1, N // 2] + [int(j) % N for j in case["probe"]]))
     with quiet():
@@ -265,6 +286,11 @@ def body_darksky(case):
             pa = np.asarray(ToOEvent.moon_phase_angle(times).value if hasattr(ToOEvent.moon_phase_angle(times), "value") else ToOEvent.moon_phase_angle(times), dtype=float)
     require(bool(np.all(np.abs(pa - ph) <= 1e-6)), f"moon phase angle {pa[:3].tolist()} differs from the angle at the Moon between Sun and Earth {ph[:3].tolist()}")
     labels = set()
+    if sc_name:
+        labels.add("other_time_scale")
+    near_ = (np.abs(sun - sc) < math.radians(1.0)) | (np.abs(moon - mc) < math.radians(1.0)) | (np.abs(ph - pc) < math.radians(1.5))
+    if np.any(near_ & ~dontcare):
+        labels.add("instant_within_1deg_of_a_limit")
     if got.any() and (~got).any():
         labels.add("mixed_mask")
     if np.any((moon > mc) & (ph > pc) & (sun < sc)):
@@ -386,6 +412,8 @@ SUBCHECKS = [
             {
                 **dark_common,
                 "probe": st.lists(st.integers(0, 1000), min_size=2, max_size=3),
+                "rel": st.one_of(st.none(), st.tuples(st.sampled_from(["moon", "phase", "phase", "sun"]), st.floats(0.0, 1.0), st.floats(math.radians(-1.0), math.radians(1.0))).map(list)),
+                "scale": st.sampled_from([None, "tai", "tt", "tdb"]),
                 "dsun": st.floats(0.0, math.radians(20)),
                 "dmoon": st.floats(0.0, math.radians(20)),
                 "dphase": st.floats(0.0, math.radians(40)),
